@@ -246,6 +246,29 @@ class ExprMixin:
             if not cx.spec:
                 self.raise_(cx, st, "builtins.AttributeError")
             return []
+        if isinstance(b, VRec) and isinstance(b.sort, TKDict):
+            return [(st, VFunc("builtin", "dict." + attr, self_val=b, qn="method." + attr))]
+        if isinstance(b, VRec) and isinstance(b.sort, TUnionRec) and cx.spec:
+            # contract expressions: total projection (members without the attribute contribute an arbitrary value)
+            val = None
+            for qn, rs in b.sort.members.items():
+                if rs.fidx(attr) is None:
+                    continue
+                v = mk_val(rs.get(b.sort.get(b.t, b.sort.member_field(qn)), attr), rs.fsort(attr))
+                val = v if val is None else self.ite(b.sort.get(b.t, "tag") == self.class_id(qn), v, val)
+            if val is None:
+                raise Unsupported("no member of %s has attribute %s" % (b.sort, attr))
+            return [(st, val)]
+        if isinstance(b, VRec) and isinstance(b.sort, TUnionRec):
+            outs = []
+            for qn, rs in b.sort.members.items():
+                cond = b.sort.get(b.t, "tag") == self.class_id(qn)
+                if not self.feasible(st, cond):
+                    continue
+                s2 = st.copy()
+                s2.pc.append(cond)
+                outs.extend(self.getattr_(VRec(b.sort.get(b.t, b.sort.member_field(qn)), rs), attr, s2, cx, node))
+            return outs
         if isinstance(b, VRec):
             if b.sort.fidx(attr) is not None:
                 return [(st, mk_val(b.sort.get(b.t, attr), b.sort.fsort(attr)))]
@@ -610,6 +633,17 @@ class ExprMixin:
     def contains(self, cont, x, st, cx):
         if isinstance(cont, (VUnion, VRec)) and isinstance(x, VStr):
             cont = self.narrow(st, cont, Str)
+        from .sym_builtin import VKeys
+        if isinstance(cont, VKeys):
+            cont = cont.d
+        if isinstance(cont, VRec) and isinstance(cont.sort, TKDict):
+            xc = x.conc() if isinstance(x, VStr) else None
+            if xc is not None:
+                return cont.sort.get(cont.t, "p_" + xc) if xc in cont.sort.keys else z3.BoolVal(False) if False else \
+                    (cont.sort.get(cont.t, "p_" + xc) if xc in cont.sort.keys else z3.And(cont.sort.get(cont.t, "other"), cont.sort.get(cont.t, "other_key") == x.t))
+            cs = [z3.And(cont.sort.get(cont.t, "p_" + k), x.t == z3.StringVal(k)) for k in cont.sort.keys]
+            cs.append(z3.And(cont.sort.get(cont.t, "other"), cont.sort.get(cont.t, "other_key") == x.t))
+            return z3.Or(*cs)
         if isinstance(cont, VStr):
             return z3.Contains(cont.t, coerce(x, Str).t)
         if isinstance(cont, VTuple):
@@ -620,7 +654,7 @@ class ExprMixin:
         if isinstance(cont, VIter):
             return list_contains(VTuple(cont.items), x)
         if isinstance(cont, VDict):
-            return dict_has(cont, x)
+            return dict_has(cont, self.narrow(st, x, cont.sort.k))
         if isinstance(cont, VConcDict):
             return z3.Or(*[val_eq(k, x) for k, _ in cont.items]) if cont.items else z3.BoolVal(False)
         if isinstance(cont, VSet):
@@ -712,12 +746,40 @@ class ExprMixin:
             idx = z3.If(it < 0, it + n, it)
             return [(st, VStr(z3.SubString(b.t, idx, 1)))]
         if isinstance(b, VDict):
+            i = self.narrow(st, i, b.sort.k)
             if cx.spec:
                 return [(st, dict_get(b, i))]
             ok, bad = self.fork(st, dict_has(b, i))
             if bad is not None:
                 self.raise_(cx, bad, "builtins.KeyError")
             return [(ok, dict_get(b, i))] if ok is not None else []
+        if isinstance(b, VRec) and isinstance(b.sort, TKDict):
+            kc = i.conc() if isinstance(i, VStr) else None
+            if kc is None:
+                # symbolic key: resolved against the key universe
+                outs = []
+                rest = st
+                for k in b.sort.keys:
+                    if rest is None:
+                        break
+                    t, rest = self.fork(rest, i.t == z3.StringVal(k))
+                    if t is not None:
+                        outs.extend(self.index(b, VStr(k), t, cx))
+                if rest is not None:
+                    outs.append((rest, VUnion(z3.FreshConst(PyU.z3(), "otherval"))))
+                return outs
+            if kc not in b.sort.keys:
+                if cx.spec:
+                    raise Unsupported("key %s is not in the key universe of %s" % (kc, b.sort))
+                self.raise_(cx, st, "builtins.KeyError")
+                return []
+            v = mk_val(b.sort.get(b.t, "v_" + kc), b.sort.keys[kc])
+            if cx.spec:
+                return [(st, v)]
+            ok, bad = self.fork(st, b.sort.get(b.t, "p_" + kc))
+            if bad is not None:
+                self.raise_(cx, bad, "builtins.KeyError")
+            return [(ok, v)] if ok is not None else []
         if isinstance(b, VMap):
             return [(st, mk_val(z3.Select(b.t, term_of(i, b.sort.k)), b.sort.v))]
         if isinstance(b, VConcDict) and cx.spec:
@@ -803,6 +865,18 @@ class ExprMixin:
             return v.items
         if isinstance(v, VConcDict):
             return [k for k, _ in v.items]
+        from .sym_builtin import VKeys, VGuard
+        if isinstance(v, VRec) and isinstance(v.sort, TKDict):
+            v = VKeys(v)
+        if isinstance(v, VKeys):
+            d = v.d
+            out = []
+            for k, so in d.sort.keys.items():
+                val = VStr(k) if not v.items else VTuple([VStr(k), mk_val(d.sort.get(d.t, "v_" + k), so)])
+                out.append(VGuard(d.sort.get(d.t, "p_" + k), val))
+            ok = VStr(d.sort.get(d.t, "other_key"))
+            out.append(VGuard(d.sort.get(d.t, "other"), ok if not v.items else VTuple([ok, VUnion(z3.FreshConst(PyU.z3(), "otherval"))])))
+            return out
         if isinstance(v, VStr) and v.conc() is not None:
             return [VStr(ch) for ch in v.conc()]
         if isinstance(v, VList):
@@ -863,10 +937,22 @@ class ExprMixin:
                 items = self.iter_items(itv, s2, cx)
                 if items is None:
                     raise SymbolicComprehension(itv)
+                from .sym_builtin import VGuard
                 work = [(s2, acc_items)]
                 for it in items:
                     nxt = []
-                    for s3, acc in work:
+                    if isinstance(it, VGuard):
+                        w2 = []
+                        for s3, acc in work:
+                            t_, f_ = self.fork(s3, it.cond)
+                            if t_ is not None:
+                                w2.append((t_, acc))
+                            if f_ is not None:
+                                nxt.append((f_, acc))
+                        work_it, it = w2, it.val
+                    else:
+                        work_it = work
+                    for s3, acc in work_it:
                         eo = dict(env_over)
                         self.bind_target(g.target, it, eo)
                         # filters
@@ -1030,4 +1116,4 @@ SPEC_BUILTINS = {"implies", "iff", "old", "forall", "exists", "isinst", "cls_is"
                  "field", "len", "str", "all", "any", "range", "int", "bool", "isinstance", "type", "zip", "enumerate",
                  "list", "tuple", "concat", "prefix_of", "seq_eq", "allocated", "unchanged", "strlen", "substr",
                  "startswith", "endswith", "contains", "old_field", "replace", "min", "max", "abs", "index_of", "in_re_ws",
-                 "set_subset", "lemma", "dict_keys", "store", "const_map", "any_value", "u_is_str", "u_is_obj", "u_is_list", "u_list", "u_str", "u_obj", "monotone", "stable_except", "live", "float_text", "frame", "same_class", "is_new", "is_space", "str_repeat", "pigeonhole", "card", "result_is_new", "str_from_int", "at"}
+                 "set_subset", "lemma", "dict_keys", "store", "const_map", "any_value", "cls", "u_is_str", "u_is_obj", "u_is_list", "u_list", "u_str", "u_obj", "monotone", "stable_except", "live", "float_text", "frame", "same_class", "is_new", "is_space", "str_repeat", "pigeonhole", "card", "result_is_new", "str_from_int", "at"}
